@@ -5,6 +5,7 @@ pub mod c19prog;
 pub mod c20;
 pub mod cli;
 pub mod core_l1;
+pub mod estimator;
 pub mod infra;
 pub mod keys;
 pub mod l2_checks;
